@@ -3,6 +3,7 @@ package c20
 import (
 	"encoding/json"
 	"fmt"
+	"os"
 	"slices"
 	"sort"
 	"strings"
@@ -350,6 +351,11 @@ func (e *orderEnv) lightBehaviour(p *provInst) map[string]string {
 		m := cc.JSON()
 		ccLine = fmt.Sprintf("%d access_token-present=%v token_type=%v expires_in=%v scope=%v id_token-present=%v refresh_token-present=%v", cc.Status, cc.Str("access_token") != "", m["token_type"], m["expires_in"], m["scope"], m["id_token"] != nil, m["refresh_token"] != nil)
 	}
+	// and a signed one: the JWT access token of the JWT service client verifies with the key set published just now
+	if os.Getenv("C20_NOKEYS") == "" {
+		p.keyProblem = ownKeysProblem(p.ag, fmt.Sprintf("provider %d", p.idx))
+	}
+	e.res.Label("own-keys:jwt-access-token-checked")
 	return map[string]string{"keys": fmt.Sprintf("%d %s", k.Status, k.Body), "token:unknown-grant": refusalLine(t), "token:client-credentials": ccLine}
 }
 
@@ -381,7 +387,12 @@ func (e *orderEnv) bornLikeSameConfig(p *provInst, epDirty bool) string {
 			continue
 		}
 		var l []string
-		if d := mapDiff(cfgView(q.disc0), cfgView(p.disc)); d != "" {
+		qv, pv := cfgView(q.disc0), cfgView(p.disc)
+		if q.sign.Alg != p.sign.Alg { // decided by the provider's own storage, not by op.Config
+			delete(qv, "id_token_signing_alg_values_supported")
+			delete(pv, "id_token_signing_alg_values_supported")
+		}
+		if d := mapDiff(qv, pv); d != "" {
 			l = append(l, "discovery: "+d)
 		}
 		was := strings.ReplaceAll(q.devFP, hostOf(q.issuer), hostOf(p.issuer))
